@@ -98,24 +98,31 @@ def near_threshold_points(gamma, u, dt):
     return np.array(P, complex), np.array(M, float), np.array(E, float), np.array(L, complex)
 
 
-def call(psi, mu, eps, lap, gamma, u, dt):
-    """submit sites (plus the helper site) to the documented static method"""
+def call(psi, mu, eps, lap, gamma, u, dt, helper_first=False):
+    """submit sites (plus the helper site, placed last or first) to the documented static method"""
     import scipy.sparse as sp
     from tdgl import TDGLSolver
 
     n = len(psi)
-    psi_all = np.concatenate([psi, [1.0 + 0.0j]])
-    mu_all = np.concatenate([mu, [0.0]])
-    eps_all = np.concatenate([eps, [1.0]])
-    rows = np.arange(n)
-    L = sp.csr_array((lap, (rows, np.full(n, n))), shape=(n + 1, n + 1))
+    if helper_first:
+        psi_all = np.concatenate([[1.0 + 0.0j], psi])
+        mu_all = np.concatenate([[0.0], mu])
+        eps_all = np.concatenate([[1.0], eps])
+        L = sp.csr_array((lap, (np.arange(1, n + 1), np.zeros(n, int))), shape=(n + 1, n + 1))
+        sl = slice(1, n + 1)
+    else:
+        psi_all = np.concatenate([psi, [1.0 + 0.0j]])
+        mu_all = np.concatenate([mu, [0.0]])
+        eps_all = np.concatenate([eps, [1.0]])
+        L = sp.csr_array((lap, (np.arange(n), np.full(n, n))), shape=(n + 1, n + 1))
+        sl = slice(0, n)
     out = TDGLSolver.solve_for_psi_squared(
         psi=psi_all, abs_sq_psi=np.abs(psi_all) ** 2, mu=mu_all, epsilon=eps_all, gamma=gamma, u=u, dt=dt, psi_laplacian=L
     )
     if out is None:
         return None
     p, x = out
-    return np.asarray(p)[:n], np.asarray(x)[:n]
+    return np.asarray(p)[sl], np.asarray(x)[sl]
 
 
 def term_scale(psi, eps, lap, gamma, u, dt):
@@ -211,10 +218,19 @@ def run_grid(case):
     iC = np.where(zoneC)[0]
     emb = iA[~tiny][:40]
     for i in iC:
-        res.executions += 2
+        res.executions += 4
         alone = call(psi[[i]], mu[[i]], eps[[i]], lap[[i]], g, u, dt)
         ii = np.concatenate([emb[:20], [i], emb[20:]])
         embedded = call(psi[ii], mu[ii], eps[ii], lap[ii], g, u, dt)
+        # ... and as the very last and the very first site of the batch
+        jj = np.concatenate([emb[:10], [i]])
+        last = call(psi[jj], mu[jj], eps[jj], lap[jj], g, u, dt, helper_first=True)
+        kk = np.concatenate([[i], emb[:10]])
+        first = call(psi[kk], mu[kk], eps[kk], lap[kk], g, u, dt)
+        if last is not None or first is not None:
+            res.violate("unsolvable-site-answered", alone=False, embedded=True, position=("last" if last is not None else "first"), **ctx,
+                        detail={"psi": psi[i], "mu": mu[i], "eps": eps[i], "lap": lap[i], "disc_ref": float(disc[i])})
+            break
         if alone is not None or embedded is not None:
             x = alone[1][0] if alone is not None else embedded[1][20]
             res.violate("unsolvable-site-answered", alone=bool(alone is not None), embedded=bool(embedded is not None), **ctx,
